@@ -340,6 +340,45 @@ theorem C01_partial (df : Defects) {rooms : List Room} {db db' : Db} {caller : K
       have hne : ct.1.node ≠ none := by rw [hn]; exact fun e => by cases e
       exact ⟨ct.1, hauth ct hct hne, (hpl.node n hn).1.symm, (hpl.node n hn).2.symm, rfl⟩
 
+/-- **C01_partial_delete_node (the code as it is).** Whatever the switches are, an accepted deletion of a stored row
+    needed the own-rows right (own row) or the all-rows right (foreign row) in the row's room at that date, and its
+    footprint is exactly: the row itself, the references stored AT it, and the references pointing TO it — no other
+    row, no other reference changes. What is missing with respect to `C01_delete_node`: the right to edit the source
+    rows of the references pointing to the deleted row (`C01_breaks_incomingRefsUnchecked`; no small repair, see
+    findings/C01-node-deletion-incoming-references.md). -/
+theorem C01_partial_delete_node (df : Defects) {rooms : List Room} {db db' : Db} {caller : Key} {now : Int}
+    {handle : Nat} {entity : Ent} {row : Row} (hrow : db.getRow handle entity = some row)
+    (h : deleteNode df rooms db caller now handle entity = .ok db') :
+    (∀ rid, row.room = some rid →
+      Allowed rooms caller now entity (if row.author = caller then .mutateSelf else .mutateAll) rid) ∧
+    db'.rows = db.rows.filter (fun r => r.id ≠ handle) ∧
+    db'.edges = db.edges.filter (fun e => e.src ≠ handle && e.dest ≠ handle) := by
+  unfold deleteNode at h
+  rw [hrow] at h
+  simp only at h
+  split at h
+  · cases h
+  · cases hr : row.room with
+    | none =>
+      rw [hr] at h
+      simp only at h
+      cases h
+      exact ⟨(by intro rid e; cases e), rfl, rfl⟩
+    | some rid =>
+      rw [hr] at h
+      simp only at h
+      cases hroom : getRoom rooms rid with
+      | none => rw [hroom] at h; cases h
+      | some room =>
+        rw [hroom] at h
+        simp only at h
+        by_cases hcan : room.can caller entity now (if row.author = caller then .mutateSelf else .mutateAll) = true
+        · simp only [hcan, if_true] at h
+          cases h
+          refine ⟨?_, rfl, rfl⟩
+          intro rid' e; cases e; exact ⟨room, hroom, hcan⟩
+        · simp [hcan] at h
+
 /-- the mutated entity itself is never below an unchanged row: the first clause of `Guard` only constrains the
     sub-entities -/
 theorem C01_guard_root {db : Db} {now : Int} {m : Mut} {cs : List Change} (hp : plan db now m = .ok cs) :
